@@ -2,3 +2,8 @@
 CHECKS = {
 }
 CHECKS.update({"C06": ("containers", "run_c06"), "C17": ("containers", "run_c17"), "C20": ("containers", "run_c20")})
+CHECKS.update({"C01": ("loader", "run_c01")})
+CHECKS.update({"C12": ("loader", "run_c12"), "C13": ("loader", "run_c13")})
+CHECKS.update({"C15": ("loader", "run_c15")})
+CHECKS.update({"C04": ("hilbert", "run_c04")})
+CHECKS.update({"C14": ("loader", "run_c14")})
